@@ -440,6 +440,23 @@ theorem C12_with_overrides_default (sw : Switches) (loadF : LoadF) (n : Ident) (
       = .ok ((insertRoot sw env st n cv).1, ⟨eraseKey base n, [], true⟩) := by
   simp [step, Cfg.remove, viaLayers, h]
 
+/-- **Only top-level `!default` declarations are configurable.**  A `$n: v !default` nested in a
+    style rule, in a top-level `@if`/`@each` block or in a mixin/function the module calls while
+    loading (`env.at_root()` is false, visitor.rs:1980) never consults the `with` configuration,
+    whatever it contains, and creates no module member: configuration and environment are unchanged;
+    the declaration sees the module's own global of that name if there is one, else its own value. -/
+theorem C12_with_only_top_level_default (sw : Switches) (loadF : LoadF) (pid ctx : Nat) (n : Ident) (v : Val) (env : Env)
+    (cfg : Cfg) (st : St) :
+    (step sw loadF (.nested pid ctx n v) env cfg st).res = .ok (env, cfg) ∧
+    (step sw loadF (.nested pid ctx n v) env cfg st).st = st.emit (.probe pid (.val ((env.vars.lookup n).getD v))) := by
+  simp [step]
+
+/-- … so a `with` that names a variable declared `!default` only in nested positions is rejected:
+    such declarations count as "cannot take it" in `cannotConsume`, the hypothesis of
+    `C12_with_unknown_is_error`. -/
+theorem C12_nested_default_cannot_consume (rec : Url → Option Ident → Bool) (vis : Option Ident) (pid ctx : Nat)
+    (n : Ident) (v : Val) : stmtKeeps rec vis (.nested pid ctx n v) = true := rfl
+
 /-- statements that cannot consume the configured name `n` -/
 def keepsCfg (n : Ident) : Stmt → Bool
   | .forward _ _ _ => false
@@ -489,6 +506,7 @@ theorem step_keeps_cfg (sw : Switches) (loadF : LoadF) (n : Ident) (s : Stmt) (h
   | mixin m => simp [step] at h; rw [← h.2]; exact ⟨rfl, rfl, rfl⟩
   | css => simp [step] at h; rw [← h.2]; exact ⟨rfl, rfl, rfl⟩
   | dbg => simp [step] at h; rw [← h.2]; exact ⟨rfl, rfl, rfl⟩
+  | nested pid ctx n' v => simp [step] at h; rw [← h.2]; exact ⟨rfl, rfl, rfl⟩
   | use url ns withs =>
     simp only [step] at h
     repeat' split at h
@@ -779,6 +797,18 @@ example : cannotConsume [srcA, srcMidP, srcTop] 3 (Url.flat ['t'] false) (some [
       = some .withNotDefault ∧
     resErr (run .now [srcA, srcMidP, srcTop, (ModSrc.flat ['e'] false [.use (Url.flat ['t'] false) .dflt [(['p', '-', 'z'], 8)]])] ['e']).res
       = none := by decide
+
+-- only nested `!default` declarations of `$x` (a style rule, a mixin called while loading): `with ($x: …)` is rejected;
+-- with a top-level one beside them it is accepted and the nested declaration sees the configured value
+private def srcTheme (top : Bool) : ModSrc :=
+  ModSrc.flat ['t'] false ((if top then [.var ['x'] 1 true] else []) ++ [.nested 1 0 ['x'] 2, .nested 2 3 ['x'] 3, .dbg, .css])
+example : cannotConsume [srcTheme false] 1 (Url.flat ['t'] false) (some ['x']) = true ∧
+    resErr (run .now [srcTheme false, ModSrc.flat ['e'] false [.use (Url.flat ['t'] false) .dflt [(['x'], 8)]]] ['e']).res
+      = some .withNotDefault ∧
+    (run .now [srcTheme false, ModSrc.flat ['e'] false [.use (Url.flat ['t'] false) .dflt []]] ['e']).st.trace.take 2
+      = [.probe 1 (.val 2), .probe 2 (.val 3)] ∧
+    (run .now [srcTheme true, ModSrc.flat ['e'] false [.use (Url.flat ['t'] false) .dflt [(['x'], 8)]]] ['e']).st.trace.take 2
+      = [.probe 1 (.val 8), .probe 2 (.val 8)] := by decide
 
 -- … and through `@forward … with`: `a` has `$x`, `$z` with `!default` and a plain `$y`.
 --   with ($y: 7 !default) takes the outer `$y`, `a` cannot: error at the @forward;  with ($x: 7) sets `$x` itself, so an
